@@ -10,7 +10,7 @@ thread_local! {
 
 static VERBOSE_PANICS: AtomicBool = AtomicBool::new(false);
 /// last panic on any thread (diagnostics for uncaught worker panics only)
-pub static LAST_ANY: std::sync::Mutex<Option<String>> = std::sync::Mutex::new(None);
+pub static LAST_ANY: std::sync::Mutex<Vec<String>> = std::sync::Mutex::new(Vec::new());
 
 /// Panics inside the subject are *outcomes* here (caught with `catch_unwind`), so the default
 /// hook's stderr output is replaced by a per-thread record of (message, source file).
@@ -34,7 +34,10 @@ pub fn install_panic_capture(verbose: bool) {
             eprintln!("panic: {msg} at {file}:{line}");
         }
         if let Ok(mut g) = LAST_ANY.lock() {
-            *g = Some(format!("{msg} at {file}:{line}"));
+            if g.len() >= 6 {
+                g.remove(0);
+            }
+            g.push(format!("{msg} at {file}:{line}"));
         }
         LAST_PANIC.with(|p| *p.borrow_mut() = Some((msg, format!("{file}:{line}"))));
     }));
@@ -49,6 +52,8 @@ pub fn take_panic() -> Option<(String, String)> {
 pub fn panic_class(msg: &str) -> String {
     let mut out = String::new();
     let mut last_dash = false;
+    // quoted input (`...`) and anything after it is run/input specific
+    let msg = msg.split('`').next().unwrap_or(msg);
     for c in msg.chars().take(60) {
         if c.is_ascii_alphabetic() {
             out.push(c.to_ascii_lowercase());
